@@ -1,4 +1,8 @@
-(* C13 finding: when the refracted beam runs within ~3e-3 rad of an optic axis, set_theta_external stores an internal angle
+(* HISTORICAL RECORD — FIXED by /repo commit 2b77618 (C02's F2 repair).  The numbers below are what the implementation returned
+   BEFORE the repair; on the repaired tree the same call reads the angle back within 1e-5 deg (checked by the `onaxis` generator
+   of harness/src/c13.rs on every run).  Kept as the pinned witness of the fixed finding.
+
+   C13 finding: when the refracted beam runs within ~3e-3 rad of an optic axis, set_theta_external stores an internal angle
    that does not satisfy Snell's law and theta_external does not read the requested angle back.  Cause: C02's finding
    (coq/Findings/C02_imaginary_index.v) — next to an optic axis index_along returns 0 for part of the directions, the cost
    |sin(theta_e) - n(theta) sin(theta)| handed to the 2-vertex Nelder-Mead jumps to sin(theta_e) there and the simplex
